@@ -37,6 +37,8 @@ def g09(pid, tier, replay):
         "design": [("MC_GraphLaws", "GraphLaws_quick.cfg", 3000)] if tier == Q else
                   [("MC_GraphLaws", "GraphLaws_thorough.cfg", 7200), ("MC_GraphLaws", "GraphLaws_assoc.cfg", 3000)],
         "proofs": ["GraphAlgebra"],
+        # ordered pairs of the complete 512-element universe the design check enumerates: a sample (quick) / all 262 144 (thorough)
+        "universe": ("GraphLaws_export.cfg", 6000 if tier == Q else 0),
         "gens": [{"args": ["--mode", "laws", "--n", "250" if tier == Q else "3000", "--ids", "4", "--rich", "0.3"]},
                  {"args": ["--mode", "laws", "--n", "40" if tier == Q else "400", "--ids", "12", "--rich", "0.5"]}],
         "rule": "every script takes three seeded random node lists x, y, z (half of them ill-formed: dangling edges, several "
